@@ -1065,7 +1065,7 @@ fn corpus_loops() -> Vec<LoopCase> {
             tool_choice: json!("auto"),
             choice_spec: Some(None),
             followup: Some("continue".into()),
-            prompt: "s16".into(),
+            prompt: if stateless { "s16".into() } else { "s16_stateful".into() },
             rounds: vec![
                 RoundSpec { mode: 0, events: vec![json!({"type":"response.created","response":{"id":"resp_1"}}), call(0, "fc_1", "call_1", "write", &w("t1"))], done: true, expected: Some(vec![ExpCall { oi: 0, call_id: "call_1".into(), name: "write".into(), args: w("t1") }]), render: 1 },
                 RoundSpec { mode: 0, events: vec![json!({"type":"response.created","response":{"id":"resp_2"}}), call(0, "fc_2", "call_2", "write", &w("t2"))], done: true, expected: Some(vec![ExpCall { oi: 0, call_id: "call_2".into(), name: "write".into(), args: w("t2") }]), render: 2 },
@@ -1138,6 +1138,13 @@ fn main() {
     let mut distinct = Distinct::default();
     let rt = tokio::runtime::Builder::new_multi_thread().worker_threads(4).enable_all().build().unwrap();
 
+    if let Some(dir) = a.extra.get("dump-corpus") {
+        std::fs::create_dir_all(dir).unwrap();
+        for c in corpus_loops() {
+            std::fs::write(Path::new(dir).join(format!("{}.json", c.prompt)), serde_json::to_string_pretty(&json!({"loop": c})).unwrap()).unwrap();
+        }
+        return;
+    }
     // ---- replay of one loop case
     if let Some(p) = &a.replay {
         let txt = std::fs::read_to_string(p).expect("replay file");
